@@ -108,6 +108,31 @@ WORK = {
 (write (list (ephemeron-broken? e) (ephemeron-key e) (ephemeron-value e)))""",
 }
 
+WORK.update({
+    # C libraries that register their own types when loaded (type tags are per context and depend on what the context
+    # registered before)
+    "random": """(import (scheme base) (scheme write) (srfi 27))
+(write (let ((r (random-integer %(n)d))) (and (exact? r) (< -1 r %(n)d))))
+(write (random-source? default-random-source))
+(define rs (make-random-source))
+(write (let ((r ((random-source-make-integers rs) 100))) (< -1 r 100)))
+(write (let ((x (random-real))) (< 0.0 x 1.0)))""",
+    "uvectors": """(import (scheme base) (scheme write) (srfi 160 base))
+(define v (make-u8vector 4 %(n)d))
+(u8vector-set! v 1 7)
+(write (list (u8vector? v) (u8vector-ref v 0) (u8vector-ref v 1) (u8vector-length v) (f64vector-ref (f64vector 1.5 2.5) 1)))""",
+    "md5": """(import (scheme base) (scheme write) (chibi crypto md5) (chibi crypto sha2))
+(write (md5 "hello-%(tag)s"))
+(write (string-length (sha-256 "abc")))""",
+    "charset": """(import (scheme base) (scheme write) (chibi char-set) (chibi iset))
+(write (char-set-contains? (char-set #\\a #\\b) #\\a))
+(write (iset->list (iset-union (iset 1 2 %(n)d) (iset 2 3))))""",
+    "filesys": """(import (scheme base) (scheme write) (chibi filesystem) (chibi time))
+(write (file-exists? "/"))
+(write (file-directory? "/"))
+(write (> (current-seconds) 1000000000))""",
+})
+
 MUTATE = {
     "redefine": """(import (scheme base) (scheme write))
 (define (car x) 'hijacked-car-%(tag)s)
@@ -159,9 +184,38 @@ def instantiate(name, table, ch):
     return text
 
 
+TYPE_LIBS = ["random", "uvectors", "hash", "green", "weak", "md5", "charset", "filesys", "json", "time", "records"]
+PREFIXES = ["records", "hash", "uvectors", "green", "json", "weak"]
+
+
+def gen_same_lib_script(ch, max_threads):
+    """several contexts use the same C-backed library after different load histories (so per-context type tags differ),
+    one after the other in one thread and / or side by side in several; the first context uses it again afterwards"""
+    lib = ch.pick(TYPE_LIBS)
+    nthreads = 1 + ch.n(min(4, max_threads))
+    threads = []
+    for t in range(nthreads):
+        ops = []
+        nctx = 2 + ch.n(2)
+        for k in range(nctx):
+            ops.append(("C", k))
+            for _ in range(ch.n(3) if k > 0 else 0):
+                pre = ch.pick(PREFIXES)
+                ops.append(("R", k, "work:" + pre, instantiate(pre, WORK, ch)))
+            ops.append(("R", k, "work:" + lib, instantiate(lib, WORK, ch)))
+        for k in range(nctx):
+            ops.append(("R", k, "work:" + lib, instantiate(lib, WORK, ch)))
+            if ch.p(0.5):
+                ops.append(("D", k))
+        threads.append((ch.pick([0, 0, 100, 1000]), ops))
+    return threads, set(["same-lib", "lib:" + lib, "probe-beside-mutated-context"])
+
+
 def gen_script(ch, max_threads=16):
     """-> list of threads: (delay_us, [ops]); op = ('C',k) | ('R',k,label,text) | ('G',k) | ('D',k)"""
-    shape = ch.pick(["parallel", "parallel", "parallel", "isolation", "mixed"])
+    shape = ch.pick(["parallel", "parallel", "parallel", "isolation", "mixed", "same-lib", "same-lib"])
+    if shape == "same-lib":
+        return gen_same_lib_script(ch, max_threads)
     nthreads = 1 if shape == "isolation" else 2 + ch.n(max_threads - 1)
     threads = []
     tags = set([shape])
